@@ -238,7 +238,8 @@ def c18(A):
                 o.bad("first-not-connect", "first packet of the connection is %s" % t, e)
             if t == "CONNECT":
                 n_connect += 1
-                if n_connect > 1:
+                if n_connect > 1 and not (c.i_refused is not None and c.i_refused < e["i"]):
+                    # (connect() again on a protocol that is idle after a refusal is allowed by C14)
                     o.bad("second-connect", "a second CONNECT was written on one connection", e)
             if t in BROKER_ONLY:
                 o.bad("broker-only-type", "broker-only packet type %s written" % t, e)
